@@ -7,6 +7,12 @@ reader/writer inversions, the `NoPanic` calculus over `Except DecErr`, `readUnti
 -/
 namespace Elvis.CodecB
 
+/-- "google.com" query as the client builds it -/
+def Dns.example1 : Dns.DnsMessage :=
+  { header := Dns.newHeader 1337 false,
+    question := Dns.newQuestion [0x67, 0x6f, 0x6f, 0x67, 0x6c, 0x65, 0x2e, 0x63, 0x6f, 0x6d],
+    answer := Dns.newRecord [0x67, 0x6f, 0x6f, 0x67, 0x6c, 0x65, 0x2e, 0x63, 0x6f, 0x6d] 1600 168496141 }
+
 /-! ### bytes -/
 
 theorem ofNat_of_mod {a : UInt8} {n : Nat} (h : n % 256 = a.toNat) : UInt8.ofNat n = a := by
